@@ -3,9 +3,11 @@
 Decided by: Barril/Props/C11.lean over the hand-written model Barril/Model/Fixed.lean (the internal
 constructor as an automaton over class default / instance attribute / dimension keyword /
 len(values); every entry route; CreateCopy, arithmetic, pickling, ChangingIndex, IndexAsScalar;
-Curve setters).  Tie: every construction route and every single operation, exhaustively over
+Curve setters; the rest of the public surface: len / iteration / indexing / slicing / the public CheckValues / == /
+FromScalars / extra keywords of CreateCopy on a FixedArray, curve[i] / curve[a:b:c] / GetLength() / repr on a Curve).
+Tie: every construction route and every single operation, exhaustively over
 dimensions -1..5 x containers (list, tuple, ndarray) of length 0..6, plus seeded random chains of
-operations over a store of arrays and Curve setter sequences, each run on the real code and on the
+operations over a store of arrays and Curve call sequences, each run on the real code and on the
 model (driver drv_fixed)."""
 import copy
 import pickle
@@ -32,16 +34,36 @@ RULE = ("exhaustive: dimensions -1..5 x value containers (list, tuple, ndarray; 
         "1-D ndarray, FixedArray, list or tuple of pairs / triples, 2-D ndarray), exhaustively for all ordered pairs of a "
         "34-array pool and randomly around colliding counts (same number of scalars, other number of points). "
         "distinct = distinct request; non-trivial = the request involves a size decision (a length, a dimension "
-        "or an index is checked) and both sides answered")
+        "or an index is checked) and both sides answered.  Added: containers of POINTS (list / tuple of pairs or triples, "
+        "2-D ndarray) of 0..4 points through every construction route (only their count matters); the unknown quantity "
+        "through every form; FixedArray.FromScalars on every class (0..3 Scalars x units / categories); on every source "
+        "of the grid: CreateCopy with the extra keywords dimension= / value= / unit_database= and with positional "
+        "arguments, CreateCopyInstance, len, iteration, array[i] for i in -7..6, array[a:b:c] for 384 slices (None / "
+        "negative / out-of-range bounds, steps None, 1, 2, -1, -2, 0), the public CheckValues with and without its "
+        "dimension keyword for containers of length 0..6, == and != against things that are not a FixedArray and (in "
+        "chains) against arrays of the store, __rdiv__; * / // with Array / FixedArray operands of length 0..6 and with "
+        "numbers / bare ndarrays on the left, whose result is a DERIVED quantity (class, dimension, length and container "
+        "compared through the model's doOperation with a size-only operation_func); sources with a DERIVED quantity "
+        "(m2, m.kg, m/kg, m/cm) x pickle / copies / CreateCopy / indexing / IndexAsScalar / ChangingIndex with a number / "
+        "+ - with numbers and bare ndarrays; Curve reads: curve[i] for every i in -n-2..n+1, slices, GetLength(), repr "
+        "(parsed back: units, the pairs shown, the ellipsis) on curves of 0..4 points over every pair of 7 container "
+        "shapes, fresh and after an accepted and a rejected setter, on curves of 20 / 21 / 22 / 30 points, and mixed "
+        "into the random call sequences")
 EXHAUSTIVE = {"quick": True, "thorough": True}
 ASSUMPTIONS = [
-    "FixedArray part: values are 1-D containers of finite numbers (list, tuple, 1-D float64 ndarray) - the Curve part "
-    "also takes lists / tuples of tuples and 2-D ndarrays, of which only the sizes matter; a str or an n-D ndarray in a "
+    "FixedArray part: values are 1-D containers of finite numbers (list, tuple, 1-D float64 ndarray); containers of "
+    "points (list / tuple of tuples, 2-D ndarray) are taken through the construction routes only, where nothing but "
+    "their count matters - the Curve part takes them everywhere, with their numbers; a str or another n-D ndarray in a "
     "FixedArray values slot is outside the modelled domain (e.g. a (3,) FixedArray plus a (2,1) ndarray broadcasts to a 2x3 "
     "array that the code accepts as a FixedArray of dimension 2: len(values) == dimension still holds)",
-    "quantities are the empty quantity or simple (one category, one unit); arithmetic whose result is a derived "
-    "quantity (array*array, array/array, number/array) is covered by the theorems (any operation_func) but not by "
-    "the correspondence; its numbers are the Alg engine's (C03/C04)",
+    "quantities are the empty quantity or simple (one category, one unit); of arithmetic whose result is a derived "
+    "quantity (array*array, array/array, number/array) the theorems cover everything (any operation_func), the "
+    "correspondence class, dimension, length, container and the ValueError cases; its numbers and quantity are the "
+    "Alg engine's (C03/C04).  A source with a derived quantity is modelled as an opaque (category, unit) pair and only "
+    "taken through operations that stay in its own unit (pickle, copies, CreateCopy without unit, indexing, + - with numbers)",
+    "indices are ints and slices of ints / None (a float, str or bool index is numpy's or the list's own TypeError / "
+    "IndexError); the digits in repr(curve) are Python's float printing (read back, not modelled); Curve.__eq__, "
+    "FixedArray.__repr__ / __str__ are not modelled (C08 / formatting)",
     "float results stay within K*eps*M (K=64) of the exact model: checked on every run, not proved",
     "numpy's elementwise arithmetic and 1-D broadcasting rule, Python's index normalisation, pickle and copy are "
     "modelled, not verified",
@@ -74,6 +96,12 @@ def vspec(kind, nums):
     return dict(k=kind, v=[enc(x) for x in nums])
 
 
+def pspec(kind, nums_, w):
+    """a container of POINTS: a list / tuple of `w`-tuples or a 2-D ndarray with `w` columns; `len()` of it is the
+    number of points, which is all the constructor looks at"""
+    return dict(k=kind, v=[enc(x) for x in nums_], w=w)
+
+
 def mk_vals(spec):
     import numpy
 
@@ -82,6 +110,13 @@ def mk_vals(spec):
     if spec == "unsized":
         return 5.0
     xs = [dec(t) for t in spec["v"]]
+    if spec.get("w"):
+        rows = [tuple(float(x) + j for j in range(spec["w"])) for x in xs]
+        if spec["k"] == K_LIST:
+            return rows
+        if spec["k"] == K_TUPLE:
+            return tuple(rows)
+        return numpy.array(rows, dtype=float).reshape(len(rows), spec["w"])
     if spec["k"] == K_LIST:
         return xs
     if spec["k"] == K_TUPLE:
@@ -94,6 +129,8 @@ def vals_line(spec):
         return None
     if spec == "unsized":
         return "unsized"
+    if spec.get("w"):   # points: the model sees one placeholder per point (only the count matters)
+        return dict(k=spec["k"], xs=["0/1" for _ in spec["v"]])
     return dict(k=spec["k"], xs=[qstr(exact(dec(t))) for t in spec["v"]])
 
 
@@ -161,12 +198,17 @@ def num_exact(v):
     return exact(float(v))
 
 
-def canon(obj):
-    """What the public API shows of a FixedArray-like object (dimension, container, numbers, unit, category)."""
+def canon(obj, points=False):
+    """What the public API shows of a FixedArray-like object (dimension, container, numbers, unit, category).
+    `points`: the values are a container of points; one placeholder stands for each."""
     import numpy
 
     raw = obj._value if not hasattr(obj, "values") else obj.values
-    if isinstance(raw, numpy.ndarray):
+    if points and isinstance(raw, (list, tuple, numpy.ndarray)) and (not isinstance(raw, numpy.ndarray) or raw.ndim == 2):
+        k, seq, n = _kind_of(raw), [0] * len(raw), len(raw)
+        if not all(isinstance(p, (tuple, numpy.ndarray)) for p in raw):
+            k += "?"
+    elif isinstance(raw, numpy.ndarray):
         k = K_ND if raw.ndim == 1 else "ndarray%dd" % raw.ndim
         seq = list(raw.ravel()) if raw.ndim != 1 else list(raw)
         n = len(raw) if raw.ndim >= 1 else -1
@@ -408,6 +450,8 @@ def run_op(src, o, store=None):
         if "arr" in rhs:
             return f(src, mk_operand(rhs["arr"]))
         other = dec(rhs["num"]) if "num" in rhs else numpy.array([dec(t) for t in rhs["nd"]], dtype=float)
+        if rhs.get("how") == "rdiv":   # the Python-2 name of the reflected division, still a public method
+            return src.__rdiv__(other)
         return f(src, other) if rhs["left"] else f(other, src)
     if do == "changingIndex":
         v = o["value"]
@@ -509,11 +553,13 @@ def op_line(o, src_state, src_cls, store_states=None):
     return d
 
 
-def canon_result(r):
+def canon_result(r, points=False):
     from barril.units import Scalar
 
     if isinstance(r, Scalar):
         return dict(scalar=dict(unit=str(sym(r.GetUnit())), cat=str(sym(r.GetCategory())), v=qstr(exact(float(r.GetValue())))))
+    if points:
+        return dict(ok=canon(r, True), cls=cls_name(r))
     if isinstance(r, Plain):
         if r.tag == "int":
             return dict(plain=dict(int=int(r.value)) if isinstance(r.value, int) and not isinstance(r.value, bool) else dict(odd=repr(r.value)))
@@ -609,6 +655,23 @@ def construction_cases(ctx, rng):
             yield dict(op="make", _t=dict(route="cwq", cls=cls, q=QL, value=v, values=v))
         yield dict(op="make", _t=dict(route="cwq", cls=cls, q=QL))
         yield dict(op="make", _t=dict(route="cwq", cls=cls, q=QL, dimension=3))
+        # containers of points (list / tuple of tuples, 2-D ndarray): the number of POINTS is the length
+        for d in DIMS:
+            for k in KINDS:
+                for n in (0, 1, 2, 3, 4):
+                    for w in (2, 3):
+                        v = pspec(k, nums(rng, n), w)
+                        for r in (dict(form="val", values=v, unit="m"), dict(form="cat", c={"str": "length"}, values=v, unit="ft"),
+                                  dict(form="cat", c={"qty": QD}, values=v, nargs=2)):
+                            yield dict(op="make", _t=dict(route="init", cls=cls, dim=d, **r))
+                        yield dict(op="make", _t=dict(route="cea", cls=cls, dimension=d, values=v))
+                        yield dict(op="make", _t=dict(route="cwq", cls=cls, q=rng.choice(QTYS), values=v, dimension=d))
+        for k in KINDS:
+            for n in (0, 1, 2, 3, 4):
+                for w in (2, 3):
+                    v = pspec(k, nums(rng, n), w)
+                    yield dict(op="make", _t=dict(route="cwq", cls=cls, q=rng.choice(QTYS), values=v, positional=True))
+                    yield dict(op="make", _t=dict(route="cwq", cls=cls, q=QL, value=v))
         # the unknown quantity through every form
         for d in DIMS:
             v = vspec(rng.choice(KINDS), nums(rng, max(d, 0)))
@@ -771,6 +834,8 @@ def extra_single_ops(rng, src, dim, kind, one):
             yield one(dict(do="arith", aop=aop, rhs=dict(num=enc(x), left=False)))
         for n in LENS:
             yield one(dict(do="arith", aop=aop, rhs=dict(nd=[enc(float(x)) for x in nums(rng, n, nonzero=True)], left=False)))
+    yield one(dict(do="arith", aop="div", rhs=dict(num=enc(nums(rng, 1, nonzero=True)[0]), left=False, how="rdiv")))
+    yield one(dict(do="arith", aop="div", rhs=dict(nd=[enc(float(x)) for x in nums(rng, dim, nonzero=True)], left=False, how="rdiv")))
 
 
 def derived_op_cases(ctx, rng):
@@ -1109,7 +1174,8 @@ def impl(c, ctx):
         t = c["_t"]
         if c["op"] == "make":
             r, e = attempt(lambda: run_route(t))
-            return dict(err=err_kind(e), exc=type(e).__name__) if e is not None else canon_result(r)
+            points = any(isinstance(t.get(k), dict) and t[k].get("w") for k in ("values", "value"))
+            return dict(err=err_kind(e), exc=type(e).__name__) if e is not None else canon_result(r, points)
         if c["op"] == "step":
             steps, _ = run_chain(dict(cmds=[dict(make=t["src"]), dict(src=0, o=t["o"])]))
             if len(steps) < 2 or "ok" not in steps[0]["out"]:
@@ -1477,7 +1543,8 @@ def _op_key(o):
     if do == "arith":
         rhs = o["rhs"]
         kind = "array" if ("arr" in rhs or "other" in rhs) else ("number" if "num" in rhs else "ndarray")
-        return "arith %s %s %s" % (o["aop"], kind, "self-left" if rhs.get("left", True) else "self-right")
+        return "arith %s %s %s%s" % (o["aop"], kind, "self-left" if rhs.get("left", True) else "self-right",
+                                     " (__rdiv__)" if rhs.get("how") == "rdiv" else "")
     if do == "changingIndex":
         v = o["value"]
         kind = "number" if "num" in v else ("Scalar" if "scalar" in v else "tuple%d" % len(v["tup"]))
@@ -1553,6 +1620,8 @@ def agree(c, io, mo, ctx):
         if o["do"] == "copy" and "ok" in io["out"] and not io["same_object"]:
             return "copy did not return the object itself"
         why = cmp_outcome(io["out"], mo, op_exact(o))
+        if o["do"] == "arith" and isinstance(mo.get("ok"), dict) and "dim" in mo["ok"] and "q" not in mo["ok"]:
+            ctx.notes["arith_results_compared_by_shape_only"] = ctx.notes.get("arith_results_compared_by_shape_only", 0) + 1
         if why is None and "ok" in io["out"]:
             want = t["src"].get("cls", "none") if o["do"] in ("createCopy", "createCopyKw", "arith", "copy") else "none"
             if io["out"]["cls"] != want:
@@ -1800,7 +1869,15 @@ def _check_op(src, o, store):
         if bad:
             return dict(clause="every obtainable FixedArray has len(values) == dimension >= 2", op=o,
                         source=dict(dimension=src.dimension, values=src_vals, unit=src.unit), observed=bad), r
-    if do == "createCopy" and isinstance(o.get("values"), dict) and len(o["values"]["v"]) != src.dimension:
+    if do == "arith" and ("arr" in o["rhs"] or "other" in o["rhs"]):
+        # two Arrays of different lengths have no elementwise result: accepting them truncates or stretches one
+        n_other = len(o["rhs"]["arr"]["v"]) if "arr" in o["rhs"] else len(store[o["rhs"]["other"]].values)
+        if n_other != len(src_vals):
+            return dict(clause="an attempt that would break the size invariant raises ValueError", op=o,
+                        source=dict(dimension=src.dimension, values=src_vals, unit=src.unit),
+                        observed="arithmetic of a FixedArray of dimension %r with an Array of %d values returned %s of dimension %r" % (
+                            src.dimension, n_other, type(r).__name__, getattr(r, "dimension", None))), r
+    if do in ("createCopy", "createCopyKw") and isinstance(o.get("values"), dict) and len(o["values"]["v"]) != src.dimension:
         # the call was legal in every other respect (it did not fail): new values of another length than the
         # dimension of the FixedArray being copied are an attempt to break its size and must raise ValueError
         return dict(clause="an attempt that would break the size invariant raises ValueError", op=o,
